@@ -30,6 +30,8 @@ var checks = map[string]*check{
 			{Name: "concurrent-dispense", Kind: "explore", Scen: "conc_ops", Inst: inst("c06", "c06"), Depths: depths([]int{2}, []int{2, 3}), Budget: budget(2*time.Minute, 10*time.Minute)},
 			// a dialled connection used again 6 s later with 400 KiB in each direction (beyond yamux's window)
 			{Name: "late-bulk", Kind: "explore", Scen: "mux_route", Inst: inst("late", "late"), Depths: depths([]int{2}, []int{2, 3}), Budget: budget(2*time.Minute, 10*time.Minute)},
+			// 300 ids outstanding at once (default schedule)
+			{Name: "many-ids", Kind: "explore", Scen: "mux_route", Inst: inst("many", "many"), Depths: depths([]int{0}, []int{0}), Budget: budget(3*time.Minute, 5*time.Minute)},
 			{Name: "conformance", Kind: "conform", Scen: "mux_route"},
 		},
 	},
